@@ -79,7 +79,11 @@ type Config struct {
 	PCTDepth      int     `json:"pct_depth"`        // > 0: PCT scheduling with this many priority-change points (the tape is ignored)
 	PCTSteps      int     `json:"pct_steps"`        // change points are drawn in [0, PCTSteps)
 	TickPerReadNs int64   `json:"tick_per_read_ns"` // wall/mono advance per clock read
-	BaseUnixMs    int64   `json:"base_unix_ms"`
+	// EagerTimerPermille > 0: "slow task" fault - at a scheduling decision the earliest timer may fire (and the clock jump to it)
+	// although tasks are still runnable: those tasks were slow, the sleeper woke up beside them. Off (0) unless a check asks for it:
+	// every timeout then may expire while its party is merely slow.
+	EagerTimerPermille int   `json:"eager_timer_permille,omitempty"`
+	BaseUnixMs         int64 `json:"base_unix_ms"`
 }
 
 // Violation is the first oracle failure of a run.
@@ -746,6 +750,19 @@ func (s *Sim) Run(main func()) *Result {
 		if s.steps >= s.cfg.MaxSteps {
 			s.budget = true
 			break
+		}
+		if s.cfg.EagerTimerPermille > 0 && len(s.timers) > 0 && int(s.next64()%1000) < s.cfg.EagerTimerPermille {
+			if tm, ok := s.popTimer(); ok {
+				if tm.at > s.now {
+					s.now = tm.at
+				}
+				s.counts["timer-fired-while-tasks-runnable"]++
+				s.Logf("eager timer -> t=%v", s.now)
+				if tm.fn != nil {
+					tm.fn()
+				}
+				continue
+			}
 		}
 		// order: last-run task first (choice 0 = no preemption), then by creation index
 		sort.Slice(runnable, func(i, j int) bool { return runnable[i].Idx < runnable[j].Idx })
